@@ -574,9 +574,9 @@ def d5_fault_points(chk: Check, model: CliModel) -> None:
 
 
 # ---------------------------------------------------------------- D6 ------
-def d6_rotate(chk: Check, model: CliModel) -> None:
+def d6_rotate(chk: Check, model: CliModel, rid: str = "C17-D6") -> None:
     prog = chk.prog
-    chk.rule("C17-D6", "eyaml-rotate-keys takes a backup and writes only "
+    chk.rule(rid, "eyaml-rotate-keys takes a backup and writes only "
              "under its file-changed flag", floor=2)
     main = fn(prog, ROTATE, "main")
     chk.analysed(main)
@@ -590,10 +590,10 @@ def d6_rotate(chk: Check, model: CliModel) -> None:
                      and isinstance(f.expr, ast.Name)]
             changed = [f for f in flags if _set_after_success(main, f.expr.id)]
             if changed:
-                chk.ok("C17-D6", main, n, src(n)[:60],
+                chk.ok(rid, main, n, src(n)[:60],
                        "guarded by `{}`".format(changed[0]))
             else:
-                chk.fail("C17-D6", main, n, src(n)[:60],
+                chk.fail(rid, main, n, src(n)[:60],
                          "file effect not guarded by the changed flag: an "
                          "untouched file would be rewritten or backed up")
     if n_sites < 2:
